@@ -188,3 +188,11 @@ func sampleOf(w *world.World, res *observe.ListResult, max int) map[string]inter
 	}
 	return map[string]interface{}{"input_yaml": shortWorld(w), "reported": ents, "error": res.Err}
 }
+
+func firstLines(s string, n int) string {
+	ls := strings.Split(s, "\n")
+	if len(ls) > n {
+		ls = ls[:n]
+	}
+	return strings.Join(ls, " | ")
+}
